@@ -43,10 +43,10 @@ class IntV:
 
 
 class FloatV:
-    """model: real term *e* with |value| <= bound;  exact: FP term."""
+    """model: real term *e* with |value| <= bound;  exact: FP term.  nonneg: value >= 0 is known."""
 
-    def __init__(self, e, bound: Fraction) -> None:
-        self.e, self.bound = e, bound
+    def __init__(self, e, bound: Fraction, nonneg: bool = False) -> None:
+        self.e, self.bound, self.nonneg = e, bound, nonneg
 
 
 class TdV:
@@ -97,12 +97,12 @@ def _pow2_above(x: Fraction) -> Fraction:
 
 def _float_const(ctx: Ctx, value: float) -> FloatV:
     if ctx.mode == "exact":
-        return FloatV(z3.FPVal(value, F64), abs(Fraction(value)))
+        return FloatV(z3.FPVal(value, F64), abs(Fraction(value)), value >= 0)
     fr = Fraction(value)  # the double's exact value
-    return FloatV(z3.Q(fr.numerator, fr.denominator), abs(fr))
+    return FloatV(z3.Q(fr.numerator, fr.denominator), abs(fr), value >= 0)
 
 
-def _rounded(ctx: Ctx, exact, bound: Fraction) -> FloatV:
+def _rounded(ctx: Ctx, exact, bound: Fraction, nonneg: bool = False) -> FloatV:
     """model mode: result of one correctly rounded operation whose exact value is *exact*."""
     ctx.ops += 1
     err = ctx.new_real("err")
@@ -112,7 +112,9 @@ def _rounded(ctx: Ctx, exact, bound: Fraction) -> FloatV:
     # exactly representable results are returned exactly (integers below 2^53)
     if bound < 2 ** 53:
         ctx.constraints.append(z3.Implies(z3.IsInt(exact), err == 0))
-    return FloatV(exact + err, bound + half_ulp)
+    if nonneg:
+        ctx.constraints.append(exact + err >= 0)  # rounding never crosses zero
+    return FloatV(exact + err, bound + half_ulp, nonneg)
 
 
 def to_float(ctx: Ctx, v) -> FloatV:
@@ -123,8 +125,8 @@ def to_float(ctx: Ctx, v) -> FloatV:
         if bound >= 2 ** 53:
             raise NotEncodable("int -> float conversion beyond 2^53")
         if ctx.mode == "exact":
-            return FloatV(z3.fpSignedToFP(RNE, v.e, F64), bound)
-        return FloatV(z3.ToReal(v.e), bound)
+            return FloatV(z3.fpSignedToFP(RNE, v.e, F64), bound, v.lo >= 0)
+        return FloatV(z3.ToReal(v.e), bound, v.lo >= 0)
     raise NotEncodable("cannot convert %r to float" % type(v).__name__)
 
 
@@ -137,15 +139,15 @@ def f_binop(ctx: Ctx, op: str, a: FloatV, b: FloatV) -> FloatV:
             bound = a.bound * b.bound
         else:
             bound = a.bound + b.bound
-        return FloatV(fn(RNE, a.e, b.e), bound)
+        return FloatV(fn(RNE, a.e, b.e), bound, a.nonneg and b.nonneg and op != "-")
     if op == "+":
-        return _rounded(ctx, a.e + b.e, a.bound + b.bound)
+        return _rounded(ctx, a.e + b.e, a.bound + b.bound, a.nonneg and b.nonneg)
     if op == "-":
         return _rounded(ctx, a.e - b.e, a.bound + b.bound)
     if op == "*":
         if not (z3.is_rational_value(z3.simplify(a.e)) or z3.is_rational_value(z3.simplify(b.e))):
             raise NotEncodable("float * float with two non-constant operands")
-        return _rounded(ctx, a.e * b.e, a.bound * b.bound)
+        return _rounded(ctx, a.e * b.e, a.bound * b.bound, a.nonneg and b.nonneg)
     if op == "/":
         bs = z3.simplify(b.e)
         if not z3.is_rational_value(bs):
@@ -153,20 +155,21 @@ def f_binop(ctx: Ctx, op: str, a: FloatV, b: FloatV) -> FloatV:
         div = Fraction(bs.numerator_as_long(), bs.denominator_as_long())
         if div == 0:
             raise NotEncodable("division by zero")
-        return _rounded(ctx, a.e / b.e, a.bound / abs(div))
+        return _rounded(ctx, a.e / b.e, a.bound / abs(div), a.nonneg and div > 0)
     raise NotEncodable("float operator " + op)
 
 
 def f_trunc_to_int(ctx: Ctx, f: FloatV) -> IntV:
     """Python int(float): truncation toward zero."""
     hi = int(f.bound) + 2
+    lo = 0 if f.nonneg else -hi
     if ctx.mode == "exact":
-        return IntV(z3.fpToSBV(z3.RTZ(), f.e, BV64), -hi, hi)
+        return IntV(z3.fpToSBV(z3.RTZ(), f.e, BV64), lo, hi)
     k = ctx.new_int("tr")
     x = f.e
     ctx.constraints.append(z3.If(x >= 0, z3.And(z3.ToReal(k) <= x, x < z3.ToReal(k) + 1),
                                  z3.And(z3.ToReal(k) >= x, x > z3.ToReal(k) - 1)))
-    return IntV(k, -hi, hi)
+    return IntV(k, lo, hi)
 
 
 def f_modf(ctx: Ctx, f: FloatV) -> Tuple[FloatV, IntV]:
@@ -174,18 +177,19 @@ def f_modf(ctx: Ctx, f: FloatV) -> Tuple[FloatV, IntV]:
     whole = f_trunc_to_int(ctx, f)
     if ctx.mode == "exact":
         r = z3.fpRoundToIntegral(z3.RTZ(), f.e)
-        return FloatV(z3.fpSub(RNE, f.e, r), Fraction(1)), whole  # exact (Sterbenz)
-    return FloatV(f.e - z3.ToReal(whole.e), Fraction(1)), whole
+        return FloatV(z3.fpSub(RNE, f.e, r), Fraction(1), f.nonneg), whole  # exact (Sterbenz)
+    return FloatV(f.e - z3.ToReal(whole.e), Fraction(1), f.nonneg), whole
 
 
 def f_round_half_even(ctx: Ctx, f: FloatV) -> IntV:
     hi = int(f.bound) + 2
+    lo = 0 if f.nonneg else -hi
     if ctx.mode == "exact":
-        return IntV(z3.fpToSBV(RNE, f.e, BV64), -hi, hi)
+        return IntV(z3.fpToSBV(RNE, f.e, BV64), lo, hi)
     k = ctx.new_int("rnd")
     # over-approximation: any integer within 1/2 (ties may go either way)
     ctx.constraints.append(z3.And(z3.ToReal(k) - f.e <= z3.RealVal("1/2"), f.e - z3.ToReal(k) <= z3.RealVal("1/2")))
-    return IntV(k, -hi, hi)
+    return IntV(k, lo, hi)
 
 
 def i_binop(ctx: Ctx, op: str, a: IntV, b: IntV) -> IntV:
@@ -279,8 +283,8 @@ def td_total_seconds(ctx: Ctx, td: TdV) -> FloatV:
             raise NotEncodable("total_seconds beyond 2^53 microseconds")
         # int/int true division is correctly rounded; operands < 2^53 are exact doubles
         num = z3.fpSignedToFP(RNE, td.us.e, F64)
-        return FloatV(z3.fpDiv(RNE, num, z3.FPVal(1e6, F64)), bound)
-    return _rounded(ctx, z3.ToReal(td.us.e) / z3.RealVal(10 ** 6), bound)
+        return FloatV(z3.fpDiv(RNE, num, z3.FPVal(1e6, F64)), bound, td.us.lo >= 0)
+    return _rounded(ctx, z3.ToReal(td.us.e) / z3.RealVal(10 ** 6), bound, td.us.lo >= 0)
 
 
 class Interp:
@@ -417,7 +421,7 @@ class Interp:
                     if ctx.mode == "exact":
                         return f_binop(ctx, "/", to_float(ctx, a), to_float(ctx, b))
                     bound = Fraction(max(abs(a.lo), abs(a.hi)), abs(b.lo))
-                    return _rounded(ctx, z3.ToReal(a.e) / z3.RealVal(b.lo), bound)
+                    return _rounded(ctx, z3.ToReal(a.e) / z3.RealVal(b.lo), bound, a.lo >= 0 and b.lo > 0)
                 return f_binop(ctx, op, to_float(ctx, a), to_float(ctx, b))
             raise NotEncodable("operands of " + op)
         if isinstance(e, ast.Call):
